@@ -36,7 +36,7 @@ var (
 	floats    = []float64{0, math.Copysign(0, -1), 0.5, -0.5, 1, -1, 1.5, -1.5, 7, 1e-300, 1e300, -1e300, math.MaxFloat64, -math.MaxFloat64,
 		math.SmallestNonzeroFloat64, 2, -2, 2.5, 6.5, 7.5, 3, 5, 10, -7, float64(1 << 31), float64(1 << 53), -float64(1 << 53), float64(1<<53 - 1)}
 	stringsPool = []string{"", "a", "ab", "b", "a\x00", "a\x00b", "é", "$x", "abc", "B", "aa", "ba", "0", "~"}
-	stringsBad  = []string{"a\xff", "\xff", "\xfe\xff", "a\xffb", "\xc3"}
+	stringsBad  = []string{"a\xff", "\xff", "\xfe\xff", "a\xffb", "\xc3", "a\xff\xff", "ab\xffz"}
 	zones       = []int{0, 2 * 3600, -(7*3600 + 1800), 3723, -3600}
 	zonesMinute = []int{0, 2 * 3600, -(7*3600 + 1800), 3600 + 120, -3600}
 )
@@ -143,6 +143,11 @@ func String(cfg ValCfg) *rapid.Generator[interface{}] {
 			return rapid.SampledFrom(stringsBad).Draw(t, "sbad")
 		case k == 1 && cfg.LongStr:
 			n := rapid.IntRange(1, 300).Draw(t, "slen")
+			if rapid.IntRange(0, 2).Draw(t, "slen-pow2") == 0 {
+				// lengths around the powers of two a size limit would be set at (Near() then yields
+				// neighbours sharing all of these bytes)
+				n = rapid.SampledFrom([]int{255, 256, 257, 1023, 1024, 1025, 1026, 511, 513, 2049, 4097}).Draw(t, "slen2")
+			}
 			c := rapid.SampledFrom([]string{"a", "b", "z"}).Draw(t, "sch")
 			return strings.Repeat(c, n)
 		case k == 2:
